@@ -36,7 +36,7 @@ var litUpperNoPair = []string{"G", "H", "Q", "M", "GH", "QM"}
 var litSpace = []string{" ", "a b", "  "}
 var escMeta = []string{`\.`, `\*`, `\+`, `\?`, `\(`, `\)`, `\[`, `\]`, `\{`, `\}`, `\|`, `\^`, `\$`, `\\`, `\"`, `\-`, `\/`, `\#`, `\ `, `\'`, `\!`}
 var escCtl = []string{`\t`, `\n`, `\f`, `\r`, `\v`, `\a`, `\x00`, `\x01`, `\x1f`, `\x7f`, `\x0b`, `\x0a`, `\x20`}
-var escHexLower = []string{`\x5c`, `\x22`, `\x2e`, `\x61`, `\x7c`, `\x28`, `\x29`, `\x{e9}`, `\x{1f600}`, `\x{20ac}`, `\x{ff}`, `\x{100}`}
+var escHexLower = []string{`\x5c`, `\x22`, `\x2e`, `\x61`, `\x7c`, `\x28`, `\x29`, `\x{e9}`, `\x{1f600}`, `\x{20ac}`, `\x{ff}`, `\x{100}`, `\x{fffd}`, `\x{80}`, `\x{7ff}`, `\x{800}`, `\x{ffff}`, `\x{10000}`, `\x{10ffff}`, `\x{feff}`, `\x{2028}`}
 var escHexUpper = []string{`\x41`, `\x5a`, `\x{212a}`, `\x{17f}`, `\x{c9}`, `\x{3a3}`}
 var escHexUpperNoPair = []string{`\x47`, `\x51`, `\x{3a3}`, `\x{c0}`}
 var rawNonASCII = []string{"é", "ß", "€", "😀", "日"}
@@ -46,7 +46,7 @@ var perlLower = []string{`\d`, `\s`, `\w`}
 var perlUpper = []string{`\D`, `\S`, `\W`}
 var anchors = []string{`^`, `$`, `\b`, `\B`, `\A`, `\z`}
 var stressAtoms = []string{`"`, `\"`, `\\`, `\\"`, `\\\"`, `\x5c`, `\x22`, `\\\\`, `"a"`, `\\x`, `[\\"]`, `["]`, `[\\]`, `[^"]`, `[^\\]`, `\s`, `[\s!]`, `[^\s]`, `\S`, `[\s\S]`, `[ \t]`,
-	`^`, `$`, `.`, `.*`, `.+`, `^.`, `.$`, `(?:^|x)`, `(?:$|x)`, `(?:.|x)`, "\t", `\x01`, "é", `\x{e9}`, `\v`, `\x0b`, `[\x0b]`, `\x7f`, `[\x00-\x1f]`, `[^ -~]`, `'`, `\'`, ` `, `\ `, `[ ]`, `\/`, `/`, `\#`, `\@rx `, `" \\`, `\$_GET`, `\$HOME`, `\$1`, `\$\{x\}`, `$$`, `%`, `%"`, `%\\`, `%(?:x)`, `%[a]`, `%s`, `%d%%`}
+	`^`, `$`, `.`, `.*`, `.+`, `^.`, `.$`, `(?:^|x)`, `(?:$|x)`, `(?:.|x)`, "\t", `\x01`, "é", "\ufffd", "a\ufffdb", `[\x{fffd}"]`, "\u2028", "\ufeff", `\x{e9}`, `\v`, `\x0b`, `[\x0b]`, `\x7f`, `[\x00-\x1f]`, `[^ -~]`, `'`, `\'`, ` `, `\ `, `[ ]`, `\/`, `/`, `\#`, `\@rx `, `" \\`, `\$_GET`, `\$HOME`, `\$1`, `\$\{x\}`, `$$`, `%`, `%"`, `%\\`, `%(?:x)`, `%[a]`, `%s`, `%d%%`}
 var quantifiers = []string{"*", "+", "?", "{2}", "{1,3}", "{0,2}", "{2,}", "*?", "+?", "??", "{1,2}?"}
 var posixLower = []string{"[:digit:]", "[:space:]", "[:^digit:]", "[:punct:]"}
 var posix = []string{"[:alpha:]", "[:digit:]", "[:space:]", "[:^digit:]", "[:punct:]", "[:xdigit:]", "[:word:]"}
